@@ -223,7 +223,7 @@ pub fn run(ctx: &Ctx) {
          equals the reference model (skipped under mutual recursion, C01's finding). Non-trivial = the negative cycle spans the \
          persistent/session boundary or has length >= 2. Distinct = case JSON.",
     );
-    ctx.run_part("rule_set_splits", ctx.cases(2000, 50_000), || tape_strategy(60).prop_map(|t| decode(&t)), |c, o| check(ctx, c, o));
+    ctx.run_part("rule_set_splits", ctx.cases(10_000, 150_000), || tape_strategy(60).prop_map(|t| decode(&t)), |c, o| check(ctx, c, o));
 }
 
 pub fn replay(ctx: &Ctx, part: &str, case: &J) -> Option<Result<CheckResult, String>> {
